@@ -34,6 +34,7 @@ type ClientOp struct {
 	To         []string
 	Body       []byte
 	Parts      []int // sizes of the Write calls, cycled; nil = one Write
+	Gap        Dur   // pause before the second Write (a slow producer)
 	CloseTwice bool
 	UseCb      bool // LMTPData with a status callback
 	Sasl       *ClientSaslPlan
@@ -261,6 +262,9 @@ func (d *clientDriver) doData(c *smtp.Client, cs *ClientScript, op *ClientOp, re
 			if p := op.Parts[k%len(op.Parts)]; p > 0 && p < sz {
 				sz = p
 			}
+		}
+		if k == 1 && op.Gap > 0 {
+			sleepClass(d.class, op.Gap)
 		}
 		k++
 		if _, werr := w.Write(op.Body[off : off+sz]); werr != nil {
